@@ -35,6 +35,12 @@ func New(max int) (*Arena, error) {
 	return &Arena{mem: m, data: np * pageSize}, nil
 }
 
+// GuardRange is the address range [lo, hi) of the inaccessible page.
+func (a *Arena) GuardRange() (lo, hi uintptr) {
+	lo = uintptr(unsafe.Pointer(&a.mem[0])) + uintptr(a.data)
+	return lo, lo + uintptr(pageSize)
+}
+
 // Cap is the largest input Place accepts.
 func (a *Arena) Cap() int { return a.data }
 
@@ -53,6 +59,21 @@ func (a *Arena) Place(b []byte) []byte {
 		return unsafe.Slice((*byte)(p), 0)
 	}
 	return a.mem[off:a.data:a.data]
+}
+
+// PlaceSlack copies b so that it is followed by slack accessible bytes (all equal to fill) inside the
+// slice's CAPACITY, and then the guard page: len == len(b), cap == len(b)+slack. A reader that bounds
+// itself by cap() instead of len() reads the filler instead of failing.
+func (a *Arena) PlaceSlack(b []byte, slack int, fill byte) []byte {
+	if len(b)+slack > a.data {
+		panic("guardpage: input larger than arena")
+	}
+	off := a.data - slack - len(b)
+	copy(a.mem[off:], b)
+	for i := a.data - slack; i < a.data; i++ {
+		a.mem[i] = fill
+	}
+	return a.mem[off : off+len(b) : a.data]
 }
 
 // Probe verifies that the guard works in this process: reading one byte past a placed buffer must
